@@ -287,12 +287,6 @@ pub fn diags(report: &cooklang::error::SourceReport) -> Vec<J> {
         .iter()
         .map(|d| {
             let class = diag_class(&d.message);
-            let class = if class == "Other" && d.stage == cooklang::error::Stage::Analysis && d.labels.len() <= 1
-                && d.severity == cooklang::error::Severity::Error && !d.message.contains("Invalid") {
-                "BadFrontMatter" // the YAML error message is free text
-            } else {
-                class
-            };
             json!({
                 "sev": if d.severity == cooklang::error::Severity::Error { "error" } else { "warning" },
                 "stage": if d.stage == cooklang::error::Stage::Parse { "parse" } else { "analysis" },
